@@ -999,8 +999,11 @@ def OP_UNSET_FLAG(tape: Tape, stack: Stack, cache: dict) -> None:
     size = int.from_bytes(tape.read(1), 'big')
     flag = tape.read(size)
     if flag not in tape.flags and len(flag) == 1 and flag[0] in tape.flags:
-        # integer flags 0-255 are addressed by their one-byte encoding
-        flag = flag[0]
+        # integer flags 0-255 are addressed by their one-byte encoding;
+        # they are turned off rather than removed so that the state is
+        # carried into sub-tapes and survives run_tape's defaults
+        tape.flags[flag[0]] = False
+        return
     if flag in tape.flags:
         del tape.flags[flag]
 
